@@ -20,8 +20,8 @@ theorem sinv_stopping {s : St} (h : WInv s) (hs : s.stopping = true) (hn : NoHel
     mid_noheld := fun _ => hn, hb_has := hb, pristine_empty := (fun _ h2 => by rw [hs] at h2; cases h2) }
 
 /-- control fields that the weak invariant does not constrain once the member is live -/
-theorem winv_upd {s : St} (h : WInv s) (hp : Live s) (rd : Bool) (j : JPc) (p : Drain) (cb hf : Bool) (now : Rat) :
-    WInv { s with rejoinD := rd, jpc := j, prep := p, coordBroker := cb, hbInFlight := hf, now := now } := by
+theorem winv_upd {s : St} (h : WInv s) (hp : Live s) (rd : Bool) (j : JPc) (p : Drain) (cb : Bool) (now : Rat) :
+    WInv { s with rejoinD := rd, jpc := j, prep := p, coordBroker := cb, now := now } := by
   constructor <;> simp only []
   · exact h.stop_needed
   · exact h.hb_timer
@@ -53,7 +53,7 @@ theorem joinAndSync_sinv {s : St} (h : SInv { s with rejoinWaitDc := none }) (hp
     · rename_i hn hd
       have hw := h.toWInv
       have hp' : Live { s with rejoinWaitDc := none } := hp
-      have w := winv_upd hw hp' true .coordLookup s.prep s.coordBroker s.hbInFlight s.now
+      have w := winv_upd hw hp' true .coordLookup s.prep s.coordBroker s.now
       refine sinv_mk w hp (by simp) (fun _ => Or.inl (by simpa using hn)) h.stable_hb (fun hm => by simp [midJoin] at hm) h.hb_has
 
 /-- an error path ends the join coroutine: from an `ErrRes` relative to the state with `jpc = idle`,
@@ -62,7 +62,7 @@ theorem sinv_after_err {s0 s1 : St} (r : ErrRes s0 s1) (hp : Live s0) (hj : s0.j
     SInv { s1 with rejoinD := false } := by
   rcases r.shape with ⟨a1, a2, a3, a4, a5, a6, a7, a8⟩ | ⟨st, n, sh⟩
   · have hp1 : Live s1 := by unfold Live at *; rw [a1, a5]; exact hp.symm.symm |> fun x => by rcases x with y | y; exact Or.inl y; exact Or.inr y
-    have w := winv_upd r.winv hp1 false s1.jpc s1.prep s1.coordBroker s1.hbInFlight s1.now
+    have w := winv_upd r.winv hp1 false s1.jpc s1.prep s1.coordBroker s1.now
     refine sinv_mk w hp1 (by simp [a2, hj]) (by simp [a2, hj]) ?_ (by simp [a2, hj, midJoin]) r.hb_has
     intro hnd hs
     simp only [] at hnd hs
@@ -94,7 +94,7 @@ theorem set_rd_eq (s : St) (h : s.rejoinD = false) : { s with rejoinD := false }
 
 theorem escape_sinv {s : St} (h : SInv s) (hp : Live s) (cfg : Cfg) (e : GErr) : SInv (escape cfg s e).1 := by
   rw [escape_eq]
-  have hw := winv_upd h.toWInv hp false .idle s.prep s.coordBroker s.hbInFlight s.now
+  have hw := winv_upd h.toWInv hp false .idle s.prep s.coordBroker s.now
   split
   · have r := rejoinAfterError_res hw cfg e (fun _ => rfl) h.hb_has
     have := sinv_after_err r hp rfl
@@ -106,7 +106,7 @@ theorem retry_sinv {s : St} (h : SInv s) (hp : Live s) (d : Rat) :
     SInv { (addTimer s .retry d).1 with jpc := .idle, rejoinD := false } := by
   have w1 := winv_addRetry h.toWInv d
   have hp1 : Live (addTimer s .retry d).1 := hp
-  have w := winv_upd w1 hp1 false .idle s.prep s.coordBroker s.hbInFlight s.now
+  have w := winv_upd w1 hp1 false .idle s.prep s.coordBroker s.now
   refine sinv_mk w hp (by simp) (by simp) h.stable_hb (by simp [midJoin]) ?_
   intro hr
   obtain ⟨t, ht, hk⟩ := h.hb_has hr
@@ -120,7 +120,7 @@ theorem coordDone_sinv {s : St} (h : SInv s) (hp : Live s) (cfg : Cfg) (r : Coor
     have hj' : s.jpc = .coordLookup := by simpa using hj
     cases r with
     | ok =>
-      have w := winv_upd h.toWInv hp s.rejoinD .metaLoad s.prep s.coordBroker s.hbInFlight s.now
+      have w := winv_upd h.toWInv hp s.rejoinD .metaLoad s.prep s.coordBroker s.now
       have hrd : s.rejoinD = true := h.rd_jpc.mpr (by simp [hj'])
       exact sinv_mk w hp (by simp [hrd]) (fun _ => h.jpc_needed (by simp [hj'])) h.stable_hb (by simp [midJoin]) h.hb_has
     | none => exact retry_sinv h hp _
@@ -137,8 +137,8 @@ theorem afterPrepare_sinv {s : St} (h : WInv s) (hp : Live s) (hn : NoHeld s) (h
     (hb : s.hbRunning = true → ∃ t ∈ s.timers, t.kind = .hb) : SInv (afterPrepare s).1 := by
   unfold afterPrepare
   split
-  · exact sinv_mk (winv_upd h hp false .idle s.prep s.coordBroker s.hbInFlight s.now) hp (by simp) (by simp) hst (by simp [midJoin]) hb
-  · exact sinv_mk (winv_upd h hp s.rejoinD .join s.prep s.coordBroker s.hbInFlight s.now) hp (by simp [hrd]) (fun _ => hnd) hst (fun _ => hn) hb
+  · exact sinv_mk (winv_upd h hp false .idle s.prep s.coordBroker s.now) hp (by simp) (by simp) hst (by simp [midJoin]) hb
+  · exact sinv_mk (winv_upd h hp s.rejoinD .join s.prep s.coordBroker s.now) hp (by simp [hrd]) (fun _ => hnd) hst (fun _ => hn) hb
 
 theorem metaDone_sinv {s : St} (h : SInv s) (hp : Live s) (cfg : Cfg) (r : Res) : SInv (step cfg s (.metaDone r)).1 := by
   simp only [step]
@@ -153,10 +153,10 @@ theorem metaDone_sinv {s : St} (h : SInv s) (hp : Live s) (cfg : Cfg) (r : Res) 
     | ok =>
       simp only []
       split
-      · exact sinv_mk (winv_upd h.toWInv hp false .idle s.prep s.coordBroker s.hbInFlight s.now) hp (by simp) (by simp)
+      · exact sinv_mk (winv_upd h.toWInv hp false .idle s.prep s.coordBroker s.now) hp (by simp) (by simp)
           h.stable_hb (by simp [midJoin]) h.hb_has
       · unfold prepare
-        have w0 := winv_upd h.toWInv hp s.rejoinD s.jpc s.prep true s.hbInFlight s.now
+        have w0 := winv_upd h.toWInv hp s.rejoinD s.jpc s.prep true s.now
         split
         · rename_i he
           have hn : NoHeld { s with coordBroker := true } := (heldCids_isEmpty _).mp he
@@ -164,7 +164,7 @@ theorem metaDone_sinv {s : St} (h : SInv s) (hp : Live s) (cfg : Cfg) (r : Res) 
         · have b := beginDrain_winv w0
           show SInv { (beginDrain { s with coordBroker := true }).1 with jpc := .prepare, prep := (beginDrain { s with coordBroker := true }).2.2 }
           have hp1 : Live (beginDrain { s with coordBroker := true }).1 := hp
-          exact sinv_mk (winv_upd b.1 hp1 s.rejoinD .prepare _ true s.hbInFlight s.now) hp (by simp [hrd]) (fun _ => hnd)
+          exact sinv_mk (winv_upd b.1 hp1 s.rejoinD .prepare _ true s.now) hp (by simp [hrd]) (fun _ => hnd)
             h.stable_hb (fun _ => b.2) h.hb_has
 
 /-- member id / generation may change while no consumer is held -/
@@ -185,7 +185,7 @@ theorem winv_member {s : St} (h : WInv s) (hn : NoHeld s) (m : Nat) (g : Option 
 /-- the error reply of a join / sync request -/
 theorem reqErr_sinv {s : St} (h : SInv s) (hp : Live s) (cfg : Cfg) (e : GErr) :
     SInv { (rejoinAfterError cfg { s with jpc := .idle } e).1 with rejoinD := false } := by
-  have hw := winv_upd h.toWInv hp s.rejoinD .idle s.prep s.coordBroker s.hbInFlight s.now
+  have hw := winv_upd h.toWInv hp s.rejoinD .idle s.prep s.coordBroker s.now
   have r := rejoinAfterError_res hw cfg e (fun _ => rfl) h.hb_has
   exact sinv_after_err r hp rfl
 
@@ -205,12 +205,12 @@ theorem joinDone_sinv {s : St} (h : SInv s) (hp : Live s) (cfg : Cfg) (r : JoinR
       have w := winv_member h.toWInv hn m (some g)
       have hp1 : Live { s with member := m, gen := some g } := hp
       split
-      · exact sinv_mk (winv_upd w hp1 false .idle s.prep s.coordBroker s.hbInFlight s.now) hp (by simp) (by simp)
+      · exact sinv_mk (winv_upd w hp1 false .idle s.prep s.coordBroker s.now) hp (by simp) (by simp)
           h.stable_hb (by simp [midJoin]) h.hb_has
       · split
-        · exact sinv_mk (winv_upd w hp1 s.rejoinD (.loadParts n) s.prep s.coordBroker s.hbInFlight s.now) hp (by simp [hrd])
+        · exact sinv_mk (winv_upd w hp1 s.rejoinD (.loadParts n) s.prep s.coordBroker s.now) hp (by simp [hrd])
             (fun _ => hnd) h.stable_hb (fun _ => hn) h.hb_has
-        · exact sinv_mk (winv_upd w hp1 s.rejoinD .sync s.prep s.coordBroker s.hbInFlight s.now) hp (by simp [hrd])
+        · exact sinv_mk (winv_upd w hp1 s.rejoinD .sync s.prep s.coordBroker s.now) hp (by simp [hrd])
             (fun _ => hnd) h.stable_hb (fun _ => hn) h.hb_has
 
 theorem partsDone_sinv {s : St} (h : SInv s) (hp : Live s) (cfg : Cfg) (r : Res) : SInv (step cfg s (.partsDone r)).1 := by
@@ -225,9 +225,9 @@ theorem partsDone_sinv {s : St} (h : SInv s) (hp : Live s) (cfg : Cfg) (r : Res)
     | ok =>
       simp only []
       split
-      · exact sinv_mk (winv_upd h.toWInv hp false .idle s.prep s.coordBroker s.hbInFlight s.now) hp (by simp) (by simp)
+      · exact sinv_mk (winv_upd h.toWInv hp false .idle s.prep s.coordBroker s.now) hp (by simp) (by simp)
           h.stable_hb (by simp [midJoin]) h.hb_has
-      · exact sinv_mk (winv_upd h.toWInv hp s.rejoinD .sync s.prep s.coordBroker s.hbInFlight s.now) hp (by simp [hrd])
+      · exact sinv_mk (winv_upd h.toWInv hp s.rejoinD .sync s.prep s.coordBroker s.now) hp (by simp [hrd])
           (fun _ => hnd) h.stable_hb (fun _ => hn) h.hb_has
   · exact h
 
@@ -334,7 +334,7 @@ theorem syncDone_sinv {s : St} (h : SInv s) (hp : Live s) (cfg : Cfg) (r : SyncR
     | ok asg =>
       simp only []
       split
-      · exact sinv_mk (winv_upd h.toWInv hp false .idle s.prep s.coordBroker s.hbInFlight s.now) hp (by simp) (by simp)
+      · exact sinv_mk (winv_upd h.toWInv hp false .idle s.prep s.coordBroker s.now) hp (by simp) (by simp)
           h.stable_hb (by simp [midJoin]) h.hb_has
       · rename_i hs
         have hs' : s.stopping = false := by simpa using hs
@@ -353,12 +353,12 @@ theorem syncDone_sinv {s : St} (h : SInv s) (hp : Live s) (cfg : Cfg) (r : SyncR
         · unfold startConsumers; simp [midJoin]
         · unfold startConsumers; intro _; simpa using ht
 
-theorem hbStop_winv {s : St} (h : WInv s) : WInv (hbStop s).1 := by
+theorem hbStop_winv {s : St} (h : WInv s) (hf : s.hbInFlight = false) : WInv (hbStop s).1 := by
   constructor <;> simp only [hbStop_timers, hbStop_hbRunning, hbStop_stopping, hbStop_rejoinNeeded, hbStop_nextTimer,
     hbStop_rejoinWaitDc, hbStop_cons, hbStop_gen, hbStop_member, hbStop_asg, hbStop_leaveWait, hbStop_started,
-    hbStop_startResult, hbStop_rejoinD, hbStop_jpc]
+    hbStop_startResult, hbStop_rejoinD, hbStop_jpc, hbStop_hbInFlight]
   · exact h.stop_needed
-  · intro _ t ht; simpa using (List.mem_filter.mp ht).2
+  · intro _; exact ⟨fun t ht => by simpa using (List.mem_filter.mp ht).2, hf⟩
   · intro t ht; exact h.timer_lt t (List.mem_filter.mp ht).1
   · exact h.timer_uniq.filter _
   · intro hs id hid
@@ -396,7 +396,7 @@ theorem hbDone_sinv {s : St} (h : SInv s) (hp : Live s) (cfg : Cfg) (r : Res) : 
   simp only [step]
   split
   · exact h
-  · have w0 := winv_upd h.toWInv hp s.rejoinD s.jpc s.prep s.coordBroker false s.now
+  · have w0 := winv_hbInFlight h.toWInv false (fun x => by cases x)
     have h0 : SInv { s with hbInFlight := false } :=
       sinv_mk w0 hp h.rd_jpc h.jpc_needed h.stable_hb h.mid_noheld h.hb_has
     cases r with
@@ -405,7 +405,7 @@ theorem hbDone_sinv {s : St} (h : SInv s) (hp : Live s) (cfg : Cfg) (r : Res) : 
       simp only []
       split
       · simp only [andThen_fst]
-        have w1 := hbStop_winv w0
+        have w1 := hbStop_winv w0 rfl
         have r := rejoinAfterError_res w1 cfg e (fun x => by
           by_cases hj : s.jpc = .idle
           · exact hj
@@ -618,7 +618,7 @@ theorem winv_fire {s : St} (h : WInv s) (hp : Live s) (id : Nat) :
     WInv { s with timers := s.timers.filter (·.id != id), rejoinWaitDc := none } := by
   constructor <;> simp only []
   · exact h.stop_needed
-  · intro hr t ht; exact h.hb_timer hr t (List.mem_filter.mp ht).1
+  · intro hr; exact ⟨fun t ht => (h.hb_timer hr).1 t (List.mem_filter.mp ht).1, (h.hb_timer hr).2⟩
   · intro t ht; exact h.timer_lt t (List.mem_filter.mp ht).1
   · exact h.timer_uniq.filter _
   · simp
@@ -653,14 +653,19 @@ theorem winv_addHb {s : St} (h : WInv s) (cfg : Cfg) (hr : s.hbRunning = true) :
 
 /-- the heartbeat looper's tick: the call is consumed, `_heartbeat()` runs, the looper reschedules -/
 theorem hbTick_sinv {s : St} (h : SInv s) (hp : Live s) (cfg : Cfg) (id : Nat)
-    (keep : ∀ t' ∈ s.timers, t'.kind ≠ .hb → t' ∈ s.timers.filter (·.id != id)) (hf : Bool) :
+    (keep : ∀ t' ∈ s.timers, t'.kind ≠ .hb → t' ∈ s.timers.filter (·.id != id)) (hf : Bool)
+    (hhf : hf = true → s.hbRunning = true) :
     SInv (if s.hbRunning then hbSchedule cfg { s with timers := s.timers.filter (·.id != id), hbInFlight := hf }
           else ({ s with timers := s.timers.filter (·.id != id), hbInFlight := hf }, [])).1 := by
   have hw := h.toWInv
   have w1 : WInv { s with timers := s.timers.filter (·.id != id), hbInFlight := hf } := by
     constructor <;> simp only []
     · exact hw.stop_needed
-    · intro hr t ht; exact hw.hb_timer hr t (List.mem_filter.mp ht).1
+    · intro hr
+      refine ⟨fun t ht => (hw.hb_timer hr).1 t (List.mem_filter.mp ht).1, ?_⟩
+      cases hf
+      · rfl
+      · rw [hhf rfl] at hr; cases hr
     · intro t ht; exact hw.timer_lt t (List.mem_filter.mp ht).1
     · exact hw.timer_uniq.filter _
     · intro hs i hi
@@ -721,9 +726,14 @@ theorem fire_sinv {s : St} (h : SInv s) (hp : Live s) (cfg : Cfg) (id : Nat) : S
         have keep' : ∀ t' ∈ s.timers, t'.kind ≠ .hb → t' ∈ s.timers.filter (·.id != id) :=
           fun t' ht' hk' => keep t' ht' (by rw [hk]; exact hk')
         simp only [andThen_fst]
+        have hrun : ∀ b : Bool, b = true → s.hbRunning = true := by
+          intro _ _
+          cases hr : s.hbRunning
+          · exact absurd hk ((h.hb_timer hr).1 t htm.1)
+          · rfl
         split
-        · exact hbTick_sinv h hp cfg id keep' s.hbInFlight
-        · exact hbTick_sinv h hp cfg id keep' true
+        · exact hbTick_sinv h hp cfg id keep' s.hbInFlight (hrun _)
+        · exact hbTick_sinv h hp cfg id keep' true (hrun _)
 
 theorem advance_sinv {s : St} (h : SInv s) (cfg : Cfg) (dt : Rat) : SInv (step cfg s (.advance dt)).1 := by
   simp only [step]
